@@ -78,7 +78,8 @@ pub fn export_strategy() -> BoxedStrategy<Export> {
             match kind {
                 "BUY" | "DIS" => { let mut v = base(kind, symbols[sym]); let price = if kind == "DIS" { "0".to_string() } else { p.clone() }; let comm = if kind == "DIS" && (x >> 4) % 3 != 0 { "0".to_string() } else { format!("-{c}") }; v.extend(vec![("Quantity", q.clone()), ("Price", price), ("Gross Amount", format!("-{}", gross.normalize())), ("Commission", comm), ("Net Amount", format!("-{}", gross.normalize()))]); rows.push(mk(v)); }
                 "SELL" | "LIQ" => { let mut v = base(kind, symbols[sym]); v.extend(vec![("Quantity", format!("-{q}")), ("Price", p.clone()), ("Gross Amount", gross.normalize().to_string()), ("Commission", format!("-{c}")), ("Net Amount", gross.normalize().to_string())]); rows.push(mk(v)); }
-                "DIV" => { let mut v = base("DIV", symbols[sym]); v.extend(vec![("Quantity", "0".to_string()), ("Price", "0".to_string()), ("Gross Amount", "0".to_string()), ("Commission", "0".to_string()), ("Net Amount", d2(px, 2))]); v.retain(|k| k.0 != "Activity Type"); v.push(("Activity Type", "Dividends".to_string())); rows.push(mk(v)); }
+                // dividends, and now and then a reversal (negative amount)
+                "DIV" => { let mut v = base("DIV", symbols[sym]); v.extend(vec![("Quantity", "0".to_string()), ("Price", "0".to_string()), ("Gross Amount", "0".to_string()), ("Commission", "0".to_string()), ("Net Amount", if (x >> 5) % 4 == 0 { format!("-{}", d2(px, 2)) } else { d2(px, 2) })]); v.retain(|k| k.0 != "Activity Type"); v.push(("Activity Type", "Dividends".to_string())); rows.push(mk(v)); }
                 "FXT" => {
                     // a pair: CAD leg and USD leg, opposite signs, same day and account
                     let usd_amt = d2(qty + 1, 2);
@@ -219,6 +220,7 @@ fn check(e: &Export, obs: &mut Obs) -> Verdict {
     if has_usd_trade && has_fxt { obs.nt("usd-trade-and-fxt-pair"); }
     if blank { obs.nt("blank-header-cell"); }
     if e.rows.iter().any(|a| a.cells["Currency"] == "USD" && ["BUY", "SELL", "DIS", "LIQ"].contains(&a.cells["Action"].as_str()) && num(a, "Price", &e.numeric_cols).is_zero() && !num(a, "Commission", &e.numeric_cols).is_zero()) { obs.class("usd-zero-price-with-fee"); }
+    if e.rows.iter().any(|a| a.cells["Action"] == "DIV" && a.cells["Currency"] == "USD" && a.cells["Net Amount"].starts_with('-')) { obs.class("usd-dividend-reversal"); }
     if e.layout != Export::canonical_layout() { obs.class("non-canonical-layout"); }
     if !e.numeric_cols.is_empty() { obs.class("numeric-cells"); }
     if want.iter().any(|w| w.registered) { obs.class("registered-account"); }
